@@ -38,12 +38,11 @@ var (
 )
 
 func GetTccFenceStoreDatabaseMapper() *TccFenceStoreDatabaseMapper {
-	if tccFenceStoreDatabaseMapper == nil {
-		once.Do(func() {
-			tccFenceStoreDatabaseMapper = &TccFenceStoreDatabaseMapper{}
-			tccFenceStoreDatabaseMapper.InitLogTableName()
-		})
-	}
+	once.Do(func() {
+		m := &TccFenceStoreDatabaseMapper{}
+		m.InitLogTableName()
+		tccFenceStoreDatabaseMapper = m
+	})
 	return tccFenceStoreDatabaseMapper
 }
 
